@@ -68,6 +68,9 @@ Definition sample_bounds (b : rb) : Z * Z :=
 Definition idx_of_draw (b : rb) (d : Z) : Z :=
   if memopt b && full b then (d + pos b) mod cap b else d.
 
+(* _get_samples: the arguments (low, high) of the randint call that draws the env column of every element *)
+Definition env_bounds (b : rb) : Z * Z := (0, nenv b).
+
 (* _get_samples for one (slot, env) pair: (obs, action, next_obs, done, reward) *)
 Definition done_mask (d t : Z) : Z := d * (1 - t).
 Definition get (b : rb) (i : Z) (e : nat) : Z * Z * Z * Z * Z :=
